@@ -1,6 +1,6 @@
 (* C03 - text exposition parses back to exactly the exposed time series.   (layered: see DESIGN.md 7/C03)
    Statements only.  Models: model/Expo.v (exposition), model/TextParser.v (parser). *)
-From V Require Import lib.PyBase lib.PyStr model.Validation model.Expo model.TextParser proofs.EscapeProofs proofs.LabelRoundTrip proofs.SampleRoundTrip.
+From V Require Import lib.PyBase lib.PyStr model.Validation model.Expo model.TextParser proofs.EscapeProofs proofs.LabelRoundTrip proofs.SampleRoundTrip proofs.DocRoundTrip.
 From V Require Import model.Utils.
 Open Scope N_scope.
 
@@ -64,3 +64,69 @@ Example C03_L4_nonvacuous :
     parse_sample false true (str) (fun t => Some t) (fun t => Some t) (fun t => Ok t) true body
     = Ok {| ps_name := s_name s; ps_labels := sort_kv (s_labels s); ps_value := s2l "1e+06"; ps_ts := Some (s2l "1500") |}.
 Proof. vm_compute. split; reflexivity. Qed.
+
+(* ================= L5: whole documents =================
+   The text exposition of a registry is a sequence of BLOCKS (C03_L5_render_is_blocks): for every family its main block
+   - '# HELP', '# TYPE' under the munged name and type (counter -> name_total, info -> name_info/gauge, stateset ->
+   gauge, gaugehistogram -> histogram, unknown -> untyped) followed by the sample lines that are not _created/_gsum/
+   _gcount series - and then one trailing gauge block per kind of such series present.
+   C03_L5_roundtrip: the parser reads a document of blocks back as exactly one family per block, in order, with
+   every sample (name, sorted labels, value, timestamp) as written; the family is what Metric(name, help, type) makes
+   of the block (C03_L5_munge_*: a counter block loses its _total again, untyped is reported as unknown, other
+   types keep name and type; the help text comes back with trailing whitespace removed: parsed_doc).
+   Hypotheses (block_ok, chain): names non-empty, consecutive blocks differently named (C06), the type word has no
+   whitespace, each sample's name is one the type allows (name, or name + _count/_sum/_bucket), label keys distinct
+   and not reserved, and the CPython facts of L4 about the value and timestamp tokens (sample_ok).
+   ALL names, label names, label values and help texts are arbitrary strings. *)
+Theorem C03_L5_render_is_blocks : forall fams,
+  text_render fams = flat_map render_block (flat_map blocks_of fams).
+Proof. exact text_render_blocks. Qed.
+Print Assumptions C03_L5_render_is_blocks.
+
+Theorem C03_L5_roundtrip :
+  forall (NUM : Type) (parse_num parse_float : str -> option NUM) (div1000 : NUM -> res NUM)
+         (val_of : sample -> NUM) (ts_of : sample -> option NUM) fams pfams,
+    Forall (block_ok NUM parse_num div1000 val_of ts_of) (flat_map blocks_of fams) ->
+    chain [] (flat_map blocks_of fams) ->
+    Forall2 (fun b f => fam_res NUM val_of ts_of b = Ok f) (flat_map blocks_of fams) pfams ->
+    text_parse false true NUM parse_num parse_float div1000 true (text_render fams) = Ok pfams.
+Proof.
+  exact (fun NUM pn pf dv vo to fams pfams H1 H2 H3 =>
+           eq_trans (f_equal _ (text_render_blocks fams))
+                    (text_blocks_roundtrip NUM pn pf dv vo to (flat_map blocks_of fams) pfams H1 H2 H3)).
+Qed.
+Print Assumptions C03_L5_roundtrip.
+
+Theorem C03_L5_munge_counter : forall NUM val_of ts_of n doc ss, n <> [] ->
+  fam_res NUM val_of ts_of {| b_name := n ++ TextParser.S_total; b_doc := doc; b_typ := TextParser.S_counter; b_samples := ss |}
+  = Ok {| pf_name := n; pf_doc := parsed_doc doc; pf_type := TextParser.S_counter;
+          pf_samples := map (ps_of NUM val_of ts_of) ss |}.
+Proof. exact fam_res_counter. Qed.
+Print Assumptions C03_L5_munge_counter.
+
+Theorem C03_L5_munge_untyped : forall NUM val_of ts_of n doc ss, n <> [] ->
+  fam_res NUM val_of ts_of {| b_name := n; b_doc := doc; b_typ := TextParser.S_untyped; b_samples := ss |}
+  = Ok {| pf_name := n; pf_doc := parsed_doc doc; pf_type := TextParser.S_unknown;
+          pf_samples := map (ps_of NUM val_of ts_of) ss |}.
+Proof. exact fam_res_untyped. Qed.
+Print Assumptions C03_L5_munge_untyped.
+
+Theorem C03_L5_munge_plain : forall NUM val_of ts_of n doc typ ss, n <> [] ->
+  str_eqb typ TextParser.S_counter = false -> str_eqb typ TextParser.S_untyped = false ->
+  mem_str typ METRIC_TYPES = true ->
+  fam_res NUM val_of ts_of {| b_name := n; b_doc := doc; b_typ := typ; b_samples := ss |}
+  = Ok {| pf_name := n; pf_doc := parsed_doc doc; pf_type := typ; pf_samples := map (ps_of NUM val_of ts_of) ss |}.
+Proof. exact fam_res_plain. Qed.
+Print Assumptions C03_L5_munge_plain.
+
+(* non-vacuity: a counter with a created series and hostile strings everywhere parses back as two families *)
+Example C03_L5_nonvacuous :
+  let hostile := [DQ; BS; LF; 32; 35] in
+  let smp n v := {| s_name := n; s_labels := [(hostile, hostile)]; s_value := FFin true v; s_ts_ms := None;
+                    s_ts_om := None; s_ex := None |} in
+  let f := {| f_name := hostile; f_doc := hostile; f_type := s2l "counter"; f_unit := [];
+              f_samples := [smp (hostile ++ s2l "_total") (s2l "3.0"); smp (hostile ++ s2l "_created") (s2l "123.5")] |} in
+  exists pfams, text_parse false true str (fun t => Some t) (fun t => Some t) (fun t => Ok t) true (text_render [f]) = Ok pfams
+    /\ map (fun p => (pf_name str p, pf_type str p, length (pf_samples str p))) pfams
+       = [(hostile, s2l "counter", 1%nat); (hostile ++ s2l "_created", s2l "gauge", 1%nat)].
+Proof. cbv zeta. eexists. split; vm_compute; reflexivity. Qed.
